@@ -49,6 +49,8 @@ TrPeer == /\ IsEv("peer") /\ PeerFeed /\ peer[avail'] = Trace[l].item
           /\ (Trace[l].item = "eof" /\ dl = "passed" => sv.phase = "done")
 TrDeadline == \/ IsEv("deadline") /\ Deadline
               \/ IsEv("deadline_set") /\ DeadlineSet
+              \/ IsEv("deadline_reset") /\ DeadlineReset
+              \/ IsEv("deadline_old") /\ OldDeadlineGoesBy
 TrHandler == IsEv("handler") /\ ServeItem(sv.owner) /\ Head(peer) = Trace[l].item
 (* hook events: for the serve process they mark the start of the calls Serve issues *)
 HookKind(pt) == CASE pt = "senderr.enter" -> "senderr"
